@@ -39,6 +39,7 @@ type zzC02Entry struct {
 }
 
 type zzC02Step struct {
+	Fail bool        `json:"fail"`
 	CI  int          `json:"ci"`
 	Cfg zzC0102Cfg   `json:"cfg"`
 	Tab []zzC02Entry `json:"tab"`
@@ -51,6 +52,8 @@ type zzC02Line struct {
 	I       int         `json:"i"`
 	RRs     []zzC0102RR `json:"rrs"`
 	Answers [][]int     `json:"answers"`
+	ProtOff  []zzC0102Out `json:"protoff"`
+	ProtOffR []zzC0102Out `json:"protoffr"`
 	Steps   []zzC02Step `json:"steps"`
 }
 
@@ -82,7 +85,7 @@ func TestZZVerifC02Replay(t *testing.T) {
 
 	dir := zzC0102WorkDir(t)
 	var hdr zzC02Line
-	lineNo, walks, cfgs, evals, bad, reconfs := 0, 0, 0, 0, 0, 0
+	lineNo, walks, cfgs, evals, bad, reconfs, faults := 0, 0, 0, 0, 0, 0, 0
 	zzReadNDJSON(t, "VERIF_IN", func(b []byte) {
 		var l zzC02Line
 		if err := json.Unmarshal(b, &l); err != nil {
@@ -119,7 +122,28 @@ func TestZZVerifC02Replay(t *testing.T) {
 		var history []any
 		for si := range l.Steps {
 			st := &l.Steps[si]
-			if si > 0 {
+			if si > 0 && l.Steps[si-1].Fail {
+				if err = z.heal(); err != nil {
+					w.put(map[string]any{"kind": "skip", "i": l.I, "s": si, "configs": len(l.Steps) - si,
+						"err": err.Error(), "ops": z.ops})
+
+					return
+				}
+			}
+
+			if st.Fail {
+				var injected bool
+				injected, err = z.failedRebuild(rng)
+				if err != nil {
+					w.put(map[string]any{"kind": "skip", "i": l.I, "s": si, "configs": len(l.Steps) - si,
+						"err": err.Error(), "ops": z.ops})
+
+					return
+				}
+				if injected {
+					faults++
+				}
+			} else if si > 0 {
 				if err = z.reconfigure(&st.Cfg, rng); err != nil {
 					w.put(map[string]any{"kind": "skip", "i": l.I, "s": si, "configs": len(l.Steps) - si,
 						"err": err.Error(), "ops": z.ops})
@@ -130,7 +154,11 @@ func TestZZVerifC02Replay(t *testing.T) {
 			}
 
 			cfgs++
-			history = append(history, z.texts)
+			if st.Fail {
+				history = append(history, "a rebuild that fails; nothing changes")
+			} else {
+				history = append(history, z.texts)
+			}
 			sends := 1
 			if st.Cfg.Cache {
 				sends = 2
@@ -146,11 +174,16 @@ func TestZZVerifC02Replay(t *testing.T) {
 
 				for k := 0; k < sends; k++ {
 					wantOf := func(rep bool) (want []zzC0102Out) {
-						if rep && st.Cfg.Cache {
+						switch {
+						case z.protOff && rep && st.Cfg.Cache:
+							return hdr.ProtOffR
+						case z.protOff:
+							return hdr.ProtOff
+						case rep && st.Cfg.Cache:
 							return e.OutR
+						default:
+							return e.Out
 						}
-
-						return e.Out
 					}
 					o, ok := z.settled(req, ans, rngQ, "", wantOf)
 					evals++
@@ -179,7 +212,7 @@ func TestZZVerifC02Replay(t *testing.T) {
 	})
 
 	w.put(map[string]any{"kind": "summary", "shard": idx, "walks": walks, "configs": cfgs, "evals": evals,
-		"bad": bad, "reconfigurations": reconfs})
+		"bad": bad, "reconfigurations": reconfs, "faults": faults})
 }
 
 // ---------------------------------------------------------------- direction B
@@ -353,7 +386,8 @@ func TestZZVerifC02Trace(t *testing.T) {
 					qn++
 					name = append([]string{"n" + strconv.Itoa(qn)}, qname...)
 				}
-				req := zzC0102Req{Name: name, Qtype: qts[rng.Intn(len(qts))], Client: []string{"c1", "c1", "c2"}[rng.Intn(3)]}
+				req := zzC0102Req{Name: name, Qtype: qts[rng.Intn(len(qts))], Client: []string{"c1", "c1", "c2"}[rng.Intn(3)],
+					Cid: []string{"", "", "", "x", "kid"}[rng.Intn(5)]}
 				sends := 1
 				if cfg.Cache {
 					sends = 2
